@@ -548,31 +548,31 @@ package gts
 
 //@ func (v hasWithBytes) WithBytes(p []byte) (out Sequence)
 //@   trusted interface contract assumed for implementations outside package gts (GenBank, Fasta)
-//@   ensures sameslice(bytesOf(out), p) && sameslice(featsOf(out), featsOf(v)) && infoOf(out) == infoOf(v)
+//@   ensures !isnil(out) && sameslice(bytesOf(out), p) && sameslice(featsOf(out), featsOf(v)) && infoOf(out) == infoOf(v)
 //@   assigns nothing
 //@ func (v hasWithFeatures) WithFeatures(ff []Feature) (out Sequence)
 //@   trusted interface contract assumed for implementations outside package gts (GenBank, Fasta)
-//@   ensures sameslice(bytesOf(out), bytesOf(v)) && sameslice(featsOf(out), ff) && infoOf(out) == infoOf(v)
+//@   ensures !isnil(out) && sameslice(bytesOf(out), bytesOf(v)) && sameslice(featsOf(out), ff) && infoOf(out) == infoOf(v)
 //@   assigns nothing
 //@ func (v hasWithInfo) WithInfo(info any) (out Sequence)
 //@   trusted interface contract assumed for implementations outside package gts (GenBank, Fasta)
-//@   ensures sameslice(bytesOf(out), bytesOf(v)) && sameslice(featsOf(out), featsOf(v)) && infoOf(out) == info
+//@   ensures !isnil(out) && sameslice(bytesOf(out), bytesOf(v)) && sameslice(featsOf(out), featsOf(v)) && infoOf(out) == info
 //@   assigns nothing
 
 //@ func WithBytes(seq Sequence, p []byte) (out Sequence)
 //@   prop C11 C02 C03
 //@   requires !isnil(seq)
-//@   ensures sameslice(bytesOf(out), p) && sameslice(featsOf(out), featsOf(seq)) && infoOf(out) == infoOf(seq)
+//@   ensures !isnil(out) && sameslice(bytesOf(out), p) && sameslice(featsOf(out), featsOf(seq)) && infoOf(out) == infoOf(seq)
 //@   assigns nothing
 //@ func WithFeatures(seq Sequence, ff []Feature) (out Sequence)
 //@   prop C11 C02 C03
 //@   requires !isnil(seq)
-//@   ensures sameslice(bytesOf(out), bytesOf(seq)) && sameslice(featsOf(out), ff) && infoOf(out) == infoOf(seq)
+//@   ensures !isnil(out) && sameslice(bytesOf(out), bytesOf(seq)) && sameslice(featsOf(out), ff) && infoOf(out) == infoOf(seq)
 //@   assigns nothing
 //@ func WithInfo(seq Sequence, info any) (out Sequence)
 //@   prop C11 C02 C03
 //@   requires !isnil(seq)
-//@   ensures sameslice(bytesOf(out), bytesOf(seq)) && sameslice(featsOf(out), featsOf(seq)) && infoOf(out) == info
+//@   ensures !isnil(out) && sameslice(bytesOf(out), bytesOf(seq)) && sameslice(featsOf(out), featsOf(seq)) && infoOf(out) == info
 //@   assigns nothing
 
 //@ func Len(seq Sequence) (n int)
@@ -587,7 +587,7 @@ package gts
 //@   ensures len(out) == len(p) + len(q) && fresh(out)
 //@   ensures head: forall k in 0..pos: out[k] == old(p[k])
 //@   ensures guest: forall k in 0..len(q): out[pos+k] == old(q[k])
-//@   ensures tail: forall k in pos..len(p): out[len(q)+k] == old(p[k])
+//@   ensures tail: forall k in pos+len(q)..len(out): out[k] == old(p[k-len(q)])
 //@   assigns nothing
 
 // Location methods as seen by the sequence-level operations: pure (no write to existing
@@ -634,4 +634,59 @@ package gts
 //@   ensures order_prev: f.Key != "source" && P(0) > 0 && old(ff[P(0)-1]).Key != "source" ==> !locLess(f.Loc, old(ff[P(0)-1]).Loc)
 //@   assigns nothing
 //@   loop 1: invariant 0 <= i && i <= len(ff) && (forall k in 0..i: ff[k].Key == "source")
+//@   loop 1: decreases len(ff) - i
+
+// Metadata hooks (GenBankFields etc.): assumed pure.
+//@ func (v Shiftable) Shift(i, n int) (out any)
+//@   trusted interface contract: metadata hooks do not write to existing memory
+//@   assigns nothing
+//@ func (v Expandable) Expand(i, n int) (out any)
+//@   trusted interface contract: metadata hooks do not write to existing memory
+//@   assigns nothing
+//@ func (v Sliceable) Slice(start, end int) (out any)
+//@   trusted interface contract: metadata hooks do not write to existing memory
+//@   assigns nothing
+
+// oldSeq(s): what s exposes was allocated before the call.
+//@ spec macro oldSeq(s Sequence) bool = isold(bytesOf(s)) && isold(featsOf(s))
+
+//@ func Insert(host Sequence, index int, guest Sequence) (out Sequence)
+//@   prop C02 C11 C10
+//@   requires !isnil(host) && !isnil(guest) && 0 <= index && index <= len(bytesOf(host)) && oldSeq(host) && oldSeq(guest)
+//@   ensures !isnil(out) && len(bytesOf(out)) == len(bytesOf(host)) + len(bytesOf(guest)) && fresh(bytesOf(out))
+//@   ensures head: forall k in 0..index: bytesOf(out)[k] == old(bytesOf(host)[k])
+//@   ensures guest: forall k in 0..len(bytesOf(guest)): bytesOf(out)[index+k] == old(bytesOf(guest)[k])
+//@   ensures tail: forall k in index+len(bytesOf(guest))..len(bytesOf(out)): bytesOf(out)[k] == old(bytesOf(host)[k-len(bytesOf(guest))])
+//@   ensures count: len(featsOf(out)) == len(featsOf(host)) + len(featsOf(guest)) && fresh(featsOf(out))
+//@   assigns nothing
+//@   loop 1: invariant len(ff) == idx1 && fresh(ff)
+//@   loop 1: decreases len(featsOf(host)) - idx1
+//@   loop 2: invariant len(ff) == len(featsOf(host)) + idx2 && fresh(ff)
+//@   loop 2: decreases len(featsOf(guest)) - idx2
+
+//@ func Embed(host Sequence, index int, guest Sequence) (out Sequence)
+//@   prop C02 C11 C10
+//@   requires !isnil(host) && !isnil(guest) && 0 <= index && index <= len(bytesOf(host)) && oldSeq(host) && oldSeq(guest)
+//@   ensures !isnil(out) && len(bytesOf(out)) == len(bytesOf(host)) + len(bytesOf(guest)) && fresh(bytesOf(out))
+//@   ensures head: forall k in 0..index: bytesOf(out)[k] == old(bytesOf(host)[k])
+//@   ensures guest: forall k in 0..len(bytesOf(guest)): bytesOf(out)[index+k] == old(bytesOf(guest)[k])
+//@   ensures tail: forall k in index+len(bytesOf(guest))..len(bytesOf(out)): bytesOf(out)[k] == old(bytesOf(host)[k-len(bytesOf(guest))])
+//@   ensures count: len(featsOf(out)) == len(featsOf(host)) + len(featsOf(guest)) && fresh(featsOf(out))
+//@   assigns nothing
+//@   loop 1: invariant len(ff) == idx1 && fresh(ff)
+//@   loop 1: decreases len(featsOf(host)) - idx1
+//@   loop 2: invariant len(ff) == len(featsOf(host)) + idx2 && fresh(ff)
+//@   loop 2: decreases len(featsOf(guest)) - idx2
+
+//@ func Delete(seq Sequence, offset, length int) (out Sequence)
+//@   prop C03 C11 C10
+//@   requires !isnil(seq) && 0 <= offset && 0 <= length && offset + length <= len(bytesOf(seq)) && oldSeq(seq)
+//@   ensures !isnil(out) && len(bytesOf(out)) == len(bytesOf(seq)) - length && fresh(bytesOf(out))
+//@   ensures head: forall k in 0..offset: bytesOf(out)[k] == old(bytesOf(seq)[k])
+//@   ensures tail: forall k in offset..len(bytesOf(out)): bytesOf(out)[k] == old(bytesOf(seq)[k+length])
+//@   ensures count: len(featsOf(out)) == len(featsOf(seq)) && fresh(featsOf(out))
+//@   ensures keys: forall k in 0..len(featsOf(out)): featsOf(out)[k].Key == old(featsOf(seq)[k].Key) && sameslice(featsOf(out)[k].Props, old(featsOf(seq)[k].Props))
+//@   assigns nothing
+//@   loop 1: invariant len(ff) == len(featsOf(seq)) && fresh(ff)
+//@   loop 1: invariant forall k in 0..i: ff[k].Key == old(featsOf(seq)[k].Key) && sameslice(ff[k].Props, old(featsOf(seq)[k].Props))
 //@   loop 1: decreases len(ff) - i
